@@ -180,11 +180,16 @@ def run_once(ctx, res, binary, seed, n, thr, witness, tag):
             for ws in t['starts']:
                 terms.append('(Thr %s %s %s)' % (Z(p), Z(p), lst(Z(x) for x in ws))); owner.append(ti)
             counts.append(('R_cnt%d' % ti, 'thr_count_violates %s %s %s %s' % (Z(p), Z(t['n']), Z(t['first']), Z(t['last']))))
-            res.count('throttle_workers=%d' % t['workers'])
+            res.count('throttle_workers=%d' % t['workers']); res.count('throttle_contexts=%s' % t.get('mode'))
+            for ks in t.get('kinds') or []:
+                for k in ks: res.count('throttle_msg_ctx=%s' % ['alive', 'already-cancelled', 'cancelled-while-waiting', 'deadline-while-waiting', 'deadline-passed'][k])
             res.evaluations += 1
-            res.nontrivial.add(('throttle', t['count'], t['duration'], t['workers']))
+            res.nontrivial.add(('throttle', t['count'], t['duration'], t['workers'], t.get('mode')))
         r = C.coq_eval(pid, 'thr_%s' % tag, HEADER + 'Definition cases : list thr_case := %s.\n' % lst(terms), [('R_thr', 'thr_violations cases')] + counts)
         bad = {owner[i] for i in r['R_thr']} | {ti for ti in range(len(ths)) if r['R_cnt%d' % ti]}
+        for ti, t in enumerate(ths):
+            if t['n'] != t.get('want', t['n']):
+                res.violations.append(dict(signature='C19/throttle-handler-not-called-once', what='Throttle did not pass every message to the handler exactly once (%d calls, %d handler starts)' % (t.get('want'), t['n']), case=t))
         for ti in sorted(bad):
             res.violations.append(dict(signature='C19/throttle-rate',
                 what='handler starts through one Throttle value are closer together than the configured rate allows (n starts in a window => n-2 periods fit; per worker k starts in between => k-1 periods apart)',
@@ -197,11 +202,11 @@ def run(ctx):
     binary = C.build_harness()
     rounds = 1 if tier == 'quick' else 8
     for rnd in range(rounds):
-        run_once(ctx, res, binary, seed + 1000 * rnd, 700 if tier == 'quick' else 2500, 3 if tier == 'quick' else 4, rnd == 0, str(rnd))
+        run_once(ctx, res, binary, seed + 1000 * rnd, 700 if tier == 'quick' else 2500, 5 if tier == 'quick' else 6, rnd == 0, str(rnd))
     res.rule = ('random chains of 0..3 real middlewares (Timeout, CorrelationID, Recoverer, IgnoreErrors, InstantAck, Throttle, closed CircuitBreaker, DelayOnError, real Retry with at most one per chain) '
                 'built once per group and shared by 1/2/4 messages in flight together, around a scripted handler (returns 0..3 fresh messages and/or the consumed one, with/without own correlation id; '
                 'fails with plain / pkg-errors-wrapped / %w-wrapped errors; panics with string / error / nil; Acks, Nacks, sets metadata or cancels the base context first), invoked 1..8 times on the same '
-                'message object; a fifth of the groups are failure runs through DelayOnError with multipliers 1, 5/4, 3/2, 7/4, 2, 9/4, 3; plus 12 starts through one Throttle value with 1..4 workers. '
+                'message object; a fifth of the groups are failure runs through DelayOnError with multipliers 1, 5/4, 3/2, 7/4, 2, 9/4, 3; plus 5 runs of 12 messages through one Throttle value with 1..4 workers, the messages carrying live, already cancelled, deadline-passed, cancelled-while-waiting and deadline-expiring-while-waiting contexts (all live / all ended / interleaved). '
                 'non-trivial = a non-empty chain or a handler that does more than return nothing; distinct by (chain kinds in order, outcome kinds, panic value kinds, number of invocations, concurrent or not).')
     return res
 
